@@ -19,14 +19,14 @@ COMMON_ASSUME = [
 REG = {}
 
 REG["C01"] = dict(
-    harnesses=[H(P, "VerifH_C01_nullScanInt32"), H(P, "VerifH_C01_nullScanWordBoundary")],
-    explanation="Kernel-wise decision of the write->read path. Decided by the solver on the real code: (K1) the null-run scanner of the typed optional write path (writeRowsFuncOfOptional closure + nullIndex + bitmap): for every vector of n values, the ranges handed to the column writer are contiguous, in order, cover every row once, and carry definition level d+1 exactly for non-zero rows, including windows that cross the 64-row bitmap word boundary after all-null / all-set / alternating prefixes. The end-to-end file round trip (reflection, Thrift, codecs, I/O) is outside the claim; encodings are decided under C04, bounds/indexes under C05.",
+    harnesses=[H(P, "VerifH_C01_nullScanInt32"), H(P, "VerifH_C01_nullScanWordBoundary"), H(E + "delta", "VerifH_C04_deltaInt32", max_seconds={"quick": 400, "thorough": 2400})],
+    explanation="Kernel-wise decision of the write->read path. Decided by the solver on the real code: (K1) the null-run scanner of the typed optional write path (writeRowsFuncOfOptional closure + nullIndex + bitmap): for every vector of n values, the ranges handed to the column writer are contiguous, in order, cover every row once, and carry definition level d+1 exactly for non-zero rows, including windows that cross the 64-row bitmap word boundary after all-null / all-set / alternating prefixes. (K5, shared with C04) the DELTA_BINARY_PACKED int32 encode/decode round trip for unrestricted values (first value and deltas at the int32 extremes included), one of the encodings every written value passes through; the other encodings are decided under C04. The end-to-end file round trip (reflection, Thrift, codecs, I/O) is outside the claim; bounds/indexes are decided under C05.",
     bounds={"quick": "n<=6 symbolic int32 rows; word-boundary windows: concrete prefix 60..63 rows x3 patterns + 2..4 symbolic rows", "thorough": "n<=10; windows up to 6 symbolic rows"},
     outside=["whole-file round trip through reflection, Thrift and codecs", "page framing, row batching, dictionary fall-back (DESIGN K2-K7 not built yet)"],
 )
 REG["C03"] = dict(
-    harnesses=[H(P, "VerifH_C01_nullScanInt32"), H(P, "VerifH_C03_nullScanKinds")],
-    explanation="Which positions are null on the typed ingestion path: the run scanner of writeRowsFuncOfOptional with the null-index kernels selected by nullIndexFuncOf for int32, float64 (-0.0 and NaN included), bool, [16]byte and string. For every input vector in the bound a row is written non-null exactly when its Go value is non-zero, which is the shredding the pre-shredded Value path stores. The reflection-driven paths (Writer.Write(any), Schema.Deconstruct) are outside the claim.",
+    harnesses=[H(P, "VerifH_C01_nullScanInt32"), H(P, "VerifH_C03_nullScanKinds"), H(P, "VerifH_C03_nullScanIntKinds")],
+    explanation="Which positions are null on the typed ingestion path: the run scanner of writeRowsFuncOfOptional with the null-index kernels selected by nullIndexFuncOf for int8, int16, uint16, int32, uint32, int, int64, uint64 (values whose low bytes are zero included), float32, float64 (-0.0 and NaN included), bool, [16]byte and string. For every input vector in the bound a row is written non-null exactly when its Go value is non-zero, which is the shredding the pre-shredded Value path stores. The reflection-driven paths (Writer.Write(any), Schema.Deconstruct) are outside the claim.",
     bounds={"quick": "n<=6 int32; n<=4 for float64/bool/[16]byte/string", "thorough": "n<=10 int32"},
     outside=["reflection paths (Deconstruct/Reconstruct, Write(any), RowBuffer)", "AVX null kernels", "repeated/nested shredding comparison (DESIGN K2,K3,K5,K6 not built yet)"],
 )
@@ -38,21 +38,22 @@ REG["C04"] = dict(
         H(E + "bytestreamsplit", "VerifH_C04_bssFloatDouble"), H(E + "bytestreamsplit", "VerifH_C04_bssIntFixed"),
         H(E + "delta", "VerifH_C04_deltaInt32", max_seconds={"quick": 400, "thorough": 2400}),
         H(E + "delta", "VerifH_C04_deltaInt64", tiers=["thorough"], max_seconds=2400),
+        H(E + "delta", "VerifH_C04_deltaByteArray"), H(E + "delta", "VerifH_C04_deltaLengthByteArray"),
     ],
     explanation="One harness per (encoding, type): the real Encode* runs on symbolic values into a destination buffer pre-filled with symbolic garbage; the result is decoded (a) by the real Decode* and (b) by a decoder written in the harness from parquet-format/Encodings.md that shares no code with the library; both must return the input bit-for-bit for every value assignment in the bound. Run structure (RLE runs vs bit-packed groups), varint lengths and miniblock bit widths become case splits; payload bits stay symbolic. DELTA_BINARY_PACKED uses an assume-guarantee step: on entry to the miniblock packer the solver proves the packer's precondition (every value fits the chosen width) and the simplifier then uses that proved fact.",
-    bounds={"quick": "RLE levels: widths {1,2,3,7,8}, n in {0..10,15,16,17}; RLE int32: widths {1,2,7,8,9,31,32}, n in {0..9,16,17}; RLE boolean: 0..4 bytes; BIT_PACKED: widths 1..8, n<=9; PLAIN: <=3 values; BYTE_STREAM_SPLIT: <=4 values, FLBA size<=5; DELTA_BINARY_PACKED int32: n<=2 unrestricted values, all 33 bit widths",
+    bounds={"quick": "RLE levels: widths {1,2,3,7,8}, n in {0..10,15,16,17}; RLE int32: widths {1,2,7,8,9,31,32}, n in {0..9,16,17}; RLE boolean: 0..4 bytes; BIT_PACKED: widths 1..8, n<=9; PLAIN: <=3 values; BYTE_STREAM_SPLIT: <=4 values, FLBA size<=5; DELTA_BINARY_PACKED int32: n<=2 unrestricted values, all 33 bit widths; DELTA_BYTE_ARRAY / DELTA_LENGTH_BYTE_ARRAY: <=3 strings of 0..2 symbolic bytes (shared prefixes and empty values arise by case split)",
             "thorough": "RLE levels: all widths 1..8, n<=25; RLE int32: all widths 1..32; RLE boolean: <=6 bytes; BSS <=8 values; DELTA_BINARY_PACKED int32 n<=3 and int64 n<=2"},
-    outside=["assembly kernels and the asm-vs-portable comparison", "DELTA_LENGTH_BYTE_ARRAY, DELTA_BYTE_ARRAY, RLE_DICTIONARY wrapper (not built yet)", "inputs longer than the bounds (block/miniblock boundaries 32/128 of DELTA_BINARY_PACKED are not reached)"],
+    outside=["assembly kernels and the asm-vs-portable comparison", "RLE_DICTIONARY wrapper (width byte + RLE int32), DELTA_BYTE_ARRAY for fixed-len values", "inputs longer than the bounds (block/miniblock boundaries 32/128 of DELTA_BINARY_PACKED are not reached)"],
 )
 REG["C05"] = dict(
-    harnesses=[H(P, f) for f in ["VerifH_C05_truncMax", "VerifH_C05_boundsInt", "VerifH_C05_boundsFloat", "VerifH_C05_boundsBE128", "VerifH_C05_boundsBytes", "VerifH_C05_indexerInt32"]],
-    explanation="Page bounds through the real page types (int32/int64/uint32/uint64 in signed resp. unsigned order, float/double with NaN skipped unless all values are NaN, 16-byte big-endian, fixed-len and variable byte arrays): min <= v <= max for every value and the bounds are attained. Column-index truncation: truncated min/max still bound the value for every byte string and size limit in the bound. Column indexer: entries equal the page statistics given, null pages and null counts exact, and a claimed ascending/descending order is true of the non-null pages.",
+    harnesses=[H(P, f) for f in ["VerifH_C05_truncMax", "VerifH_C05_boundsInt", "VerifH_C05_boundsFloat", "VerifH_C05_boundsBE128", "VerifH_C05_boundsBytes", "VerifH_C05_indexerInt32", "VerifH_C05_levelHistograms", "VerifH_C06_byteArrayIndexerOrder"]],
+    explanation="Page bounds through the real page types (int32/int64/uint32/uint64 in signed resp. unsigned order, float/double with NaN skipped unless all values are NaN, 16-byte big-endian, fixed-len and variable byte arrays): min <= v <= max for every value and the bounds are attained. Column-index truncation: truncated min/max still bound the value for every byte string and size limit in the bound. Column indexer: entries equal the page statistics given, null pages and null counts exact, and a claimed ascending/descending order is true of the non-null pages (int32, byte-array and fixed-len indexers). Level histograms: every page histogram counts exactly that page's levels whatever the reused buffer held, and the column histogram is the sum over pages.",
     bounds={"quick": "<=4 values per page (3 for float/BE128, 2 for byte arrays of <=2 bytes); truncation: values <=4 bytes, limits 1..3; indexer: <=3 pages", "thorough": "<=6 values; indexer <=4 pages"},
-    outside=["SIMD min/max kernels", "geospatial statistics", "level histograms, copied statistics, concatenated indexes (DESIGN K5-K8 not built yet)"],
+    outside=["SIMD min/max kernels", "geospatial statistics", "copied statistics, sorting metadata, concatenated indexes (DESIGN K6-K8 not built yet)"],
 )
 REG["C06"] = dict(
-    harnesses=[H(P, "VerifH_C06_searchInt32"), H(P, "VerifH_C06_searchByteArray")],
-    explanation="The column index is produced inside the harness by the real indexer from P pages of symbolic statistics (null pages contribute zero Values exactly as the writer does), so IsAscending is whatever the writer would record. For every probe value and every hidden page p whose bounds contain it, Search returns r <= p; r < NumPages implies page r is non-null and its bounds contain the value; r == NumPages only if no page's bounds contain the value. int32 and byte-array columns (with and without bound truncation).",
+    harnesses=[H(P, "VerifH_C06_searchInt32"), H(P, "VerifH_C06_searchByteArray"), H(P, "VerifH_C06_byteArrayIndexerOrder"), H(P, "VerifH_C06_findNullsFirst")],
+    explanation="The column index is produced inside the harness by the real indexer from P pages of symbolic statistics (null pages contribute zero Values exactly as the writer does), so IsAscending is whatever the writer would record. For every probe value and every hidden page p whose bounds contain it, Search returns r <= p; r < NumPages implies page r is non-null and its bounds contain the value; r == NumPages only if no page's bounds contain the value. int32 and byte-array columns (with and without bound truncation); fixed-len and byte-array indexers claim an order only if it holds for minima and maxima; Find with the documented nulls-first comparator obeys the same contract.",
     bounds={"quick": "int32: P<=4 pages, any null mask; byte arrays of 2 bytes: P<=2, truncation limit 0/1", "thorough": "int32 P<=5; byte arrays P<=3"},
     outside=["multiColumnIndex (concatenated row groups)", "descending binary search does not exist in the code (linear search is used)"],
 )
@@ -72,8 +73,8 @@ REG["C20"] = dict(
 )
 
 REG["C13"] = dict(
-    harnesses=[H(P, "VerifH_C13_crcDetects", max_seconds={"quick": 300, "thorough": 1800}), H(P, "VerifH_C13_lazyDictionary"), H(P, "VerifH_C13_crcZeroHole")],
-    explanation="(K1) writerBuffers.crc32 (writer) against FilePages.readPage (reader) on a symbolic body and an arbitrary non-zero flip mask: the solver shows that the branch 'stored checksum == checksum of the altered bytes' is infeasible, so readPage returns an error wrapping ErrCorrupted and no data, while the unaltered body is accepted (CRC-32 modelled by its bitwise definition). (K2) the lazy dictionary load used after a seek (FilePages.readDictionary) with the Thrift header decode and the dictionary decoder replaced by recording stubs: an altered body is never handed to the decoder and an ErrCorrupted error is returned; counterexamples are re-enacted natively on a real file through SeekToRow. (K3) the complement of K1's precondition: a body whose CRC-32 is 0 is indistinguishable from 'no checksum' in this implementation and its corruption is accepted; this is an open known finding.",
+    harnesses=[H(P, "VerifH_C13_crcDetects", max_seconds={"quick": 300, "thorough": 1800}), H(P, "VerifH_C13_lazyDictionary"), H(P, "VerifH_C13_crcZeroHole"), H(P, "VerifH_C08_columnPagesAcrossRowGroups")],
+    explanation="(K1) writerBuffers.crc32 (writer) against FilePages.readPage (reader) on a symbolic body and an arbitrary non-zero flip mask: the solver shows that the branch 'stored checksum == checksum of the altered bytes' is infeasible, so readPage returns an error wrapping ErrCorrupted and no data, while the unaltered body is accepted (CRC-32 modelled by its bitwise definition). (K2) the lazy dictionary load used after a seek (FilePages.readDictionary) with the Thrift header decode and the dictionary decoder replaced by recording stubs: an altered body is never handed to the decoder and an ErrCorrupted error is returned; counterexamples are re-enacted natively on a real file through SeekToRow. (K3) the complement of K1's precondition: a body whose CRC-32 is 0 is indistinguishable from 'no checksum' in this implementation and its corruption is accepted; this is an open known finding. (K2') the file-level column reader reports a corruption error of any row group's page reader instead of moving on to the next row group (shared with C08, replayed natively with a flipped byte in a real file).",
     bounds={"quick": "K1: body of 1..3 bytes split over the level/value buffers, any non-zero flip mask; K2: body of 1..2 bytes; K3: 4-byte body", "thorough": "K1: 1..4 bytes; K2: 1..3 bytes"},
     outside=["decompressor behaviour on corrupted input", "encrypted pages (C18)", "bodies longer than the bound (CRC-32 detects all bursts <= 32 bits by construction, not re-proved here)"],
     assumptions=["hash/crc32 is modelled by the bitwise reflected CRC-32 definition (poly from the table)", "K2: stubs for thrift.Decoder.Decode (yields the stored page header) and Column.decodeDictionary (recorder)"],
@@ -102,8 +103,8 @@ REG["C09"] = dict(
 )
 
 REG["C08"] = dict(
-    harnesses=[H(P, "VerifH_C08_filePagesSeekRead", max_paths={"quick": 400000, "thorough": 4000000}, max_seconds={"quick": 300, "thorough": 2400}), H(P, "VerifH_C08_mergedRowsSeek")],
-    explanation="(K1) the seek/read state machine of FilePages (SeekToRow, ReadPage, serveLastPage/lastPage caching, skip accounting, buffered-stream repositioning) is executed on a real byte stream through the real io.SectionReader, bufio.Reader and readPage; only the Thrift page-header decode and the data-page body decoder are replaced by stubs (the header stub yields the header of the page that starts at the current stream position and flags a misaligned stream). Every history of seeks and reads in the bound is explored, with and without an offset index: the rows returned after the last SeekToRow(k) are rows k, k+1, ... and the stream stays aligned on page boundaries. Counterexamples are replayed literally through the public API on a real file whose pages have the model's row counts. (K5) SeekToRow on the rows of a merged row group followed by reads of any batch size returns the rows from the target on, rejects backward seeks and terminates.",
+    harnesses=[H(P, "VerifH_C08_filePagesSeekRead", max_paths={"quick": 400000, "thorough": 4000000}, max_seconds={"quick": 300, "thorough": 2400}), H(P, "VerifH_C08_mergedRowsSeek"), H(P, "VerifH_C08_columnPagesAcrossRowGroups")],
+    explanation="(K1) the seek/read state machine of FilePages (SeekToRow, ReadPage, serveLastPage/lastPage caching, skip accounting, buffered-stream repositioning) is executed on a real byte stream through the real io.SectionReader, bufio.Reader and readPage; only the Thrift page-header decode and the data-page body decoder are replaced by stubs (the header stub yields the header of the page that starts at the current stream position and flags a misaligned stream). Every history of seeks and reads in the bound is explored, with and without an offset index: the rows returned after the last SeekToRow(k) are rows k, k+1, ... and the stream stays aligned on page boundaries. Counterexamples are replayed literally through the public API on a real file whose pages have the model's row counts. (K5) SeekToRow on the rows of a merged row group followed by reads of any batch size returns the rows from the target on, rejects backward seeks and terminates. (K4) the file-level column reader (columnPages) chains the page readers of all row groups (modelled, one-row pages): after any history of seeks and reads the pages continue at the expected row across row-group boundaries and an error from a row group's reader is reported, not skipped; replayed literally on a real multi-row-group file.",
     bounds={"quick": "K1: 1..3 pages of 1..2 rows, histories of 4 operations (seek to any row incl. the end, or read), offset index present/absent; K5: <=6 rows, batch 1..4, 2 operations", "thorough": "K1: pages of 1..3 rows, 5 operations; K5: 3 operations"},
     outside=["asynchronous read mode (C15)", "encrypted ordinals (C18)", "v1 pages that continue a row from the previous page, dictionary pages in the stream", "page slicing (K2), rowGroupRows and range views (K3, K4) not built yet"],
     assumptions=["K1: stubs for thrift.Decoder.Decode (header of the page at the current stream position) and FilePages.readDataPageV2 (model page identified by the body bytes)"],
@@ -126,8 +127,8 @@ REG["C18"] = dict(
 )
 
 REG["C14"] = dict(
-    harnesses=[H(P, "VerifH_C14_sinkFaults"), H(P, "VerifH_C14_fileHeader"), H(P, "VerifH_C14_openPrelude")],
-    explanation="(K1) the writer's sink wrapper offsetTrackingWriter (Write, WriteString, ReadFrom through io.Copy) over a model sink that fails, or short-writes without an error, at any byte offset: for every history of three operations with symbolic data the tracked offset equals the bytes the sink accepted and every refused byte is visible to the caller (non-nil error, or the short count its callers turn into io.ErrShortWrite); writeFileHeader writes the magic once and reports a refusing sink. (K2) the prelude of OpenFile (magic, trailer, footer-length arithmetic, optimistic footer read) on a model io.ReaderAt over symbolic file bytes of every size 0..14 with an injected read fault: never a panic, never a successfully opened file, and a read error always surfaces; the Thrift footer decode is cut off by a stub. Counterexamples of K2 are re-enacted natively: every strict prefix of a real file is rejected and single failing ReadAt calls surface.",
+    harnesses=[H(P, "VerifH_C14_sinkFaults"), H(P, "VerifH_C14_fileHeader"), H(P + "/internal/memory", "VerifH_C14_pageBufferWriteTo"), H(P, "VerifH_C14_openPrelude")],
+    explanation="(K1) the writer's sink wrapper offsetTrackingWriter (Write, WriteString, ReadFrom through io.Copy) over a model sink that fails, or short-writes without an error, at any byte offset: for every history of three operations with symbolic data the tracked offset equals the bytes the sink accepted and every refused byte is visible to the caller (non-nil error, or the short count its callers turn into io.ErrShortWrite); writeFileHeader writes the magic once and reports a refusing sink; the chunked page buffer (internal/memory.Buffer) streams every buffered byte to the sink in order through WriteTo and reports a sink failure at any offset with an exact count. (K2) the prelude of OpenFile (magic, trailer, footer-length arithmetic, optimistic footer read) on a model io.ReaderAt over symbolic file bytes of every size 0..14 with an injected read fault: never a panic, never a successfully opened file, and a read error always surfaces; the Thrift footer decode is cut off by a stub. Counterexamples of K2 are re-enacted natively: every strict prefix of a real file is rejected and single failing ReadAt calls surface.",
     bounds={"quick": "K1: fault offset 0..9, 3 operations of 0..4 bytes; K2: file size 0..14 symbolic bytes (claimed footer length <=16), fault on ReadAt call 0..2 (error or short read), optimistic read on/off, two buffer sizes", "thorough": "same"},
     outside=["the ~40 write sites inside page, dictionary, bloom and footer writers", "'every strict prefix of every produced file is rejected' beyond the prelude (needs the real footer decode)", "bufio write buffer and page buffer pools"],
     assumptions=["K2: stub for thrift.Decoder.Decode (always fails: the footer is not decodable)", "footer length field of the symbolic file is assumed <= 16 to bound allocation"],
